@@ -437,6 +437,15 @@ def rollback_cover(ctx: Ctx):
     def good_handler(t: ast.Try) -> tuple[bool, str]:
         for h in t.handlers:
             if not handler_is_catch_all(h):
+                # a narrower clause listed first takes the exception away from the rollback clause (sibling clauses do not
+                # see what an earlier one raises): it has to roll back itself
+                dels0 = [c for c in storage_calls(ctx, save, ('delete',)) if any(x is c for x in ast.walk(h))]
+                g0 = ctx.cfg(save)
+                he0 = g0.nodes_of(h)[0]
+                if not dels0 or (g0.reachable([he0], avoid=[g0.primary(dels0[0])], exc=False) & {n for n in g0.reachable([he0], exc=False)
+                                                                                                      if g0.node(n).kind in ('raise', 'return')}):
+                    return False, (f'`except {src(h.type)}` is listed before the rollback clause and leaves without deleting the entry: these '
+                                   'exceptions never reach `except BaseException`')
                 continue
             dels = [c for c in storage_calls(ctx, save, ('delete',)) if any(x is c for x in ast.walk(h))]
             if not dels:
@@ -525,6 +534,37 @@ def rollback_cover(ctx: Ctx):
         yield ctx.ob('C12.ROLLBACK-COVER', not bad, m, bad[0] if bad else m.node, f'{c.name}.save_result propagates failures',
                      '' if not bad else f'{c.name}.save_result swallows an exception: the rollback never runs',
                      construct=f'{c.name}:save_result-propagates')
+
+
+@rule('C12.HANDLE-CLOSED-IN-SCOPE', ['C12', 'C13', 'C06', 'C08'])
+def handle_closed_in_scope(ctx: Ctx):
+    """Every storage.file_handle(...) a cache opens is closed by a `with` statement in the same function: buffered data is
+    written at close, and only a close inside the save's try block lets a failing flush (disk full, quota, remote store) reach
+    the rollback.  A handle that is merely dropped is closed by the object finalizer, which discards the error - the save
+    "succeeds" with a truncated file."""
+    n = 0
+    for m in cache_methods(ctx):
+        fhs = storage_calls(ctx, m, ('file_handle',))
+        if not fhs:
+            continue
+        withs = [w for w in walk_local(m.node) if isinstance(w, (ast.With, ast.AsyncWith))]
+        for call in fhs:
+            n += 1
+            ok = any(it.context_expr is call for w in withs for it in w.items)
+            if not ok:
+                # bound to a name that is then entered: `f = storage.file_handle(...)` ... `with f:`
+                for a in walk_local(m.node):
+                    if isinstance(a, ast.Assign) and a.value is call and len(a.targets) == 1 and isinstance(a.targets[0], ast.Name):
+                        nm = a.targets[0].id
+                        ok = any(isinstance(it.context_expr, ast.Name) and it.context_expr.id == nm for w in withs for it in w.items)
+            if not ok:
+                # returned to the caller (a helper that opens): the caller is responsible
+                ok = any(isinstance(r, ast.Return) and r.value is call for r in walk_local(m.node))
+            yield ctx.ob('C12.HANDLE-CLOSED-IN-SCOPE', ok, m, call, f'{src(call)[:50]} closed by a with statement',
+                         '' if ok else f'`{src(call)[:70]}` is not entered as a context manager: the file is closed by its finalizer, which swallows '
+                         'a failing flush, so a truncated file is left behind and the save reports success')
+    if n < 3:
+        raise AnalysisError(f'only {n} storage.file_handle() calls found in the cache classes')
 
 
 @rule('C13.COMMIT-POINT', ['C13'])
